@@ -467,12 +467,16 @@ func (ps *pathState) assert(cond value, id string, region value) {
 		}
 	}
 	// continue under the assumption that the assertion holds
+	endStatus := "assume"
+	if rt != nil {
+		endStatus = "known" // the path ends inside a declared known-finding region
+	}
 	if ct.IsFalse() {
-		ps.abort("assume", "assertion "+id+" is false on this whole path")
+		ps.abort(endStatus, "assertion "+id+" is false on this whole path")
 	}
 	ps.assume(ct)
 	if ps.check() == smt.Unsat {
-		ps.abort("assume", "assertion "+id+" fails on this whole path")
+		ps.abort(endStatus, "assertion "+id+" fails on this whole path")
 	}
 }
 
